@@ -804,6 +804,15 @@ class Interp:
                 return ScalV(s=sa - sb)
             if isinstance(op, ast.Mult):
                 return ScalV(s=sa * sb)
+        if isinstance(a, ArrV) and isinstance(b, Const) and isinstance(b.value, (int, float)) and not isinstance(b.value, bool) and b.value != 0 \
+                and isinstance(op, (ast.Mult, ast.Div)) and a.form is not None:
+            from fractions import Fraction as _Fr
+            q = _Fr(str(b.value))
+            return ArrV(a.rows, a.cols, origin="scaled", form=a.form.scale(q if isinstance(op, ast.Mult) else 1 / q))
+        if isinstance(b, ArrV) and isinstance(a, Const) and isinstance(a.value, (int, float)) and not isinstance(a.value, bool) and isinstance(op, ast.Mult) \
+                and b.form is not None:
+            from fractions import Fraction as _Fr
+            return ArrV(b.rows, b.cols, origin="scaled", form=b.form.scale(_Fr(str(a.value))))
         if isinstance(a, ArrV) and not isinstance(b, ArrV) and isinstance(op, (ast.Mult, ast.Div, ast.Add, ast.Sub)):
             if to_scalar(b) is not None or isinstance(b, ScalV):
                 return ArrV(a.rows, a.cols, origin="scalar-op")    # array (op) scalar keeps the axes; the value changed
